@@ -559,9 +559,8 @@ class CalWorld:
           "when only an upper bound or only a limit is given": exactly the window is demanded.
         """
         after, before, limit, via, shape, now = q['after'], q['before'], q['limit'], q['via'], q['shape'], q['now']
-        if q.get('offset'):
-            via = via + ',bounds=utc_offset'
-        tag = f'via={via}'
+        # signatures: the discriminating fact first (replay files are named after the first 40 characters)
+        tag = f'via={via}' + (',utc_offset' if q.get('offset') else '')
         if exc is not None:
             if isinstance(exc, ValueError) and after is None and before is None and limit is None:
                 self.probes['query_all_none_valueerror'] += 1
@@ -588,7 +587,7 @@ class CalWorld:
             return
         bad = [r for r in got if r['status'] != status]
         if bad:
-            self.violate('C18', 'wrong_outcome_returned', f'{tag},got={bad[0]["status"]}',
+            self.violate('C18', 'wrong_outcome_returned', f'got={bad[0]["status"]},{tag}',
                          f'{self.qtext(q)} returned #{bad[0]["seq"]} with outcome {bad[0]["status"]}')
             return
         for r in got:
@@ -598,7 +597,7 @@ class CalWorld:
             elif before is not None and not r['t'] < before:
                 why = 'on_before_bound' if r['t'] == before else 'newer_than_before'
             if why:
-                self.violate('C18', 'outside_window', f'via={via},{why}',
+                self.violate('C18', 'outside_window', f'{why},{tag}',
                              f'{self.qtext(q)} returned #{r["seq"]} completed {fmt(r["t"])}, not strictly inside the window')
                 return
         times = [r['t'] for r in got]
@@ -642,14 +641,14 @@ class CalWorld:
         if missing:
             m, h = missing[0]['t'], hi0.astimezone(UTC)
             if m.date() == h.date():
-                cls = 'day_of_upper_bound'
+                cls = 'upper_day'
             elif m.timetz() >= h.timetz():
-                cls = 'earlier_day_later_time_of_day'
+                cls = 'earlier_day_later_tod'
             else:
                 cls = 'earlier_day_other'
         exact = (after is not None and before is not None) or limit is None
         rule = 'window_incomplete' if exact else 'not_the_newest'
-        self.violate('C18', rule, f'via={via},missing={cls}',
+        self.violate('C18', rule, f'missing={cls},{tag}',
                      f'{self.qtext(q)} returned {[(r["seq"], fmt(r["t"])) for r in got[:5]]} ({len(got)} entries); the window holds {len(W0)}; '
                      f'newest missing: {[(r["seq"], fmt(r["t"])) for r in missing[:4]]}')
 
